@@ -536,7 +536,9 @@ func (t *Trie) getFromStore(h util.Uint256) (Node, error) {
 	}
 
 	if t.mode.RC() {
-		data = data[:len(data)-5]
+		// The slice belongs to the store. It is cached for reading, so cap it
+		// for the counters appended later not to be written over the stored ones.
+		data = data[: len(data)-5 : len(data)-5]
 		node := t.refcount[h]
 		if node != nil {
 			node.bytes = data
